@@ -32,6 +32,8 @@ type wrapCtx struct {
 	reads      map[*ssa.Function]map[string]bool
 	writes     map[*ssa.Function]map[string]bool
 	hoistedVals map[ssa.Value]bool
+	hoistedValName map[ssa.Value]string
+	hoistedTypes map[string]types.Type
 	static     map[string]bool // statically computed flags
 	notes      []string
 }
@@ -67,12 +69,20 @@ func (wc *wrapCtx) analyse() {
 	fn := wc.w.fn
 	storesTo := map[*ssa.Alloc]int{}
 	wc.hoistedVals = map[ssa.Value]bool{}
+	wc.hoistedValName = map[ssa.Value]string{}
+	wc.hoistedTypes = map[string]types.Type{}
 	for _, b := range fn.Blocks {
 		for _, in := range b.Instrs {
 			switch in := in.(type) {
 			case *ssa.DebugRef:
-				if id, ok := in.Expr.(*ast.Ident); ok && hoistedName.MatchString(id.Name) && !in.IsAddr {
-					wc.hoistedVals[in.X] = true
+				if id, ok := in.Expr.(*ast.Ident); ok && hoistedName.MatchString(id.Name) {
+					if !in.IsAddr {
+						wc.hoistedVals[in.X] = true
+						wc.hoistedValName[in.X] = id.Name
+						wc.hoistedTypes[id.Name] = in.X.Type()
+					} else if pt, ok := in.X.Type().Underlying().(*types.Pointer); ok {
+						wc.hoistedTypes[id.Name] = pt.Elem()
+					}
 				}
 			case *ssa.Alloc:
 				if hoistedName.MatchString(in.Comment) {
@@ -284,17 +294,15 @@ func (g *gpass) registerWrapperModels() {
 		if !ok {
 			return
 		}
-		// store through a pointer loaded from a hoisted cell: a Results target
-		if ld, ok := st.Addr.(*ssa.UnOp); ok && ld.Op == token.MUL {
-			if al, ok := ld.X.(*ssa.Alloc); ok && wc.hoisted[al] {
-				var src string
-				if vl, ok := st.Val.(*ssa.UnOp); ok && vl.Op == token.MUL {
-					if va, ok := vl.X.(*ssa.Alloc); ok {
-						src = va.Comment
-					}
+		// store through a pointer held by a hoisted variable: a Results target
+		if name := wc.hoistedPtrName(st.Addr); name != "" {
+			var src string
+			if vl, ok := st.Val.(*ssa.UnOp); ok && vl.Op == token.MUL {
+				if va, ok := vl.X.(*ssa.Alloc); ok {
+					src = va.Comment
 				}
-				s.Events = append(s.Events, vc.Event{Kind: "result-store", Name: al.Comment + "<-" + src, Instr: in})
 			}
+			s.Events = append(s.Events, vc.Event{Kind: "result-store", Name: name + "<-" + src, Instr: in})
 		}
 	}
 	x.OnLoopBack = func(s *vc.State, f *vc.Frame, lp *vc.Loop) {
@@ -426,11 +434,9 @@ func (g *gpass) wrapperExit(s *vc.State, f *vc.Frame, kind string, results []vc.
 		}
 		seenTarget[tgt] = true
 		var tt, st types.Type
-		for al := range wc.hoisted {
-			if al.Comment == tgt {
-				if pt, ok := al.Type().Underlying().(*types.Pointer).Elem().Underlying().(*types.Pointer); ok {
-					tt = pt.Elem()
-				}
+		if ht, ok := wc.hoistedTypes[tgt]; ok {
+			if pt, ok := ht.Underlying().(*types.Pointer); ok {
+				tt = pt.Elem()
 			}
 		}
 		for _, b := range w.fn.Blocks {
@@ -449,12 +455,8 @@ func (g *gpass) wrapperExit(s *vc.State, f *vc.Frame, kind string, results []vc.
 	nTargets := 0
 	for _, b := range w.fn.Blocks {
 		for _, in := range b.Instrs {
-			if st, ok := in.(*ssa.Store); ok {
-				if ld, ok := st.Addr.(*ssa.UnOp); ok && ld.Op == token.MUL {
-					if al, ok := ld.X.(*ssa.Alloc); ok && wc.hoisted[al] {
-						nTargets++
-					}
-				}
+			if st, ok := in.(*ssa.Store); ok && wc.hoistedPtrName(st.Addr) != "" {
+				nTargets++
 			}
 		}
 	}
@@ -573,6 +575,48 @@ func (g *gpass) wrapperExit(s *vc.State, f *vc.Frame, kind string, results []vc.
 		}
 	}
 	B("everyJobEnqueuedOnce", vc.BoolLit(allOnce))
+
+	// the source directive as ground truth
+	df := readDirective(g.testsDir, w.fn)
+	if !df.found {
+		wc.notes = append(wc.notes, "directive: "+df.why)
+	}
+	got := map[string]bool{}
+	for _, h := range pf.hoists {
+		got[h] = true
+	}
+	sameSet := df.found && len(got) == len(df.leaves)
+	for n := range df.leaves {
+		if !got[n] {
+			sameSet = false
+			wc.notes = append(wc.notes, "argument at "+n+" is not hoisted")
+		}
+	}
+	for n := range got {
+		if !df.leaves[n] && df.found {
+			wc.notes = append(wc.notes, "hoisted "+n+" is not a directive argument")
+		}
+	}
+	B("hoistedExactlyTheArguments", vc.BoolLit(sameSet))
+	rc := map[string]int{}
+	for _, jc := range w.closures {
+		rc[jc.role]++
+	}
+	jobsMatch := df.found && rc["flow-task"]+rc["parallel-task"] == df.nTasks && rc["flow-predicate"] == df.nPreds &&
+		rc["slice-elem"] == df.nSlice && rc["map-elem"] == df.nMap && rc["end-hook"] == df.nEnd && rc["unrecognised"] == 0
+	if !jobsMatch && df.found {
+		wc.notes = append(wc.notes, fmt.Sprintf("directive has %d tasks %d predicates %d slices %d maps %d end hooks; generated %v", df.nTasks, df.nPreds, df.nSlice, df.nMap, df.nEnd, rc))
+	}
+	B("jobsMatchDirective", vc.BoolLit(jobsMatch))
+	B("resultsMatchDirective", vc.BoolLit(df.found && nTargets == df.nResults))
+	// no user function is invoked on the calling goroutine
+	userOnCaller := 0
+	for _, ev := range s.Events {
+		if (ev.Kind == "call" || ev.Kind == "call-panicked") && strings.HasPrefix(ev.Name, "dynamic _") {
+			userOnCaller++
+		}
+	}
+	B("noUserFunctionOnCaller", vc.BoolLit(userOnCaller == 0))
 
 	// scheduler params come from hoisted expressions or are absent
 	B("schedParamsOK", vc.BoolLit(g.schedParamsOK(wc)))
@@ -1101,4 +1145,25 @@ func isRangeIndex(v ssa.Value, lp *vc.Loop) bool {
 		}
 	}
 	return false
+}
+
+func ssaStructField(fa *ssa.FieldAddr) string {
+	st := fa.X.Type().Underlying().(*types.Pointer).Elem().Underlying().(*types.Struct)
+	return st.Field(fa.Field).Name()
+}
+
+// hoistedPtrName: addr is the value of a hoisted variable (a register or the
+// load of its cell); returns the variable's name.
+func (wc *wrapCtx) hoistedPtrName(addr ssa.Value) string {
+	if n, ok := wc.hoistedValName[addr]; ok {
+		if _, isAlloc := addr.(*ssa.Alloc); !isAlloc {
+			return n
+		}
+	}
+	if ld, ok := addr.(*ssa.UnOp); ok && ld.Op == token.MUL {
+		if al, ok := ld.X.(*ssa.Alloc); ok && wc.hoisted[al] {
+			return al.Comment
+		}
+	}
+	return ""
 }
